@@ -1,6 +1,7 @@
 import Ogen.Exchange_proof
 import Ogen.Props.C06
 import Ogen.Props.C13
+import Ogen.JsonAccept_proof
 /-!
 # C01 — generated client and server exchange values without silent change (partial, by composition)
 
@@ -10,7 +11,12 @@ a generated client and server run for every parameter; they are re-exported here
 composition is carried out in full for integer parameters (`int_param_never_wrong`). What is specific to the
 exchange is modelled in `Ogen/Exchange_proof.lean`: presence and defaults (`decodeParam`), and response-variant
 selection (`select` / `statusOf`).
-Not proved: request/response bodies (C04's codecs), media types other than JSON, the middleware's parameter
+JSON bodies of the codec fragment (`JCodec`: objects open or closed, required / optional / defaulted × nullable
+members, arrays, integers, strings, booleans) are carried by C04's and C03's theorems, re-exported here for
+the exchange: the server decodes exactly the value the client encoded (`body_delivered`), reaches the handler
+exactly when that value passes its validation (`body_reaches_handler_iff`), and an absent member that has a
+schema default arrives as that default (`body_absent_member_default`).
+Not proved: bodies outside that fragment, media types other than JSON, the middleware's parameter
 map, the template expansion itself. Those are decided on every run by driving regenerated clients and servers
 (every admitted location × style × explode × shape × element type, bodies, every response variant) and
 comparing canonical forms, where the oracle is identity.
@@ -47,6 +53,24 @@ theorem response_select_inverse_partial (declared : List Variant) (v : Variant) 
 theorem select_sound (declared : List Variant) (v : Variant) (status : Nat)
     (h : select declared status = some v) : v ∈ declared ∧ Owns declared v status :=
   Exchange.select_sound declared v status h
+/-! ### JSON bodies of the codec fragment -/
+open JCodec in
+/-- the handler's decoder recovers exactly the body value the caller's encoder wrote -/
+theorem body_delivered (t : Ty) (v : Val) (hw : t.WF) (h : WT t v) : JCodec.decode t (JCodec.encode t v) = some v :=
+  JCodec.decode_encode t v hw h
+open JCodec in
+/-- … and the request reaches the handler exactly when that value passes its own validation -/
+theorem body_reaches_handler_iff (t : Ty) (v : Val) (hw : t.WF) (h : WT t v) :
+    accept t (JCodec.encode t v) = JCodec.validate t v := by
+  simp [accept, JCodec.decode_encode t v hw h]
+open JCodec in
+/-- an absent member that has a schema default arrives as that default -/
+theorem body_absent_member_default (closed : Bool) (fs : List Field) (kvs : List (String × Json)) (st : List Val)
+    (hn : (names fs).Nodup) (hk : (JEqG.keys kvs).Nodup) (h : JCodec.decode (.obj closed fs) (.obj kvs) = some (.obj st)) :
+    st = fs.map (fieldState kvs) ∧
+    ∀ n d nul t, JEqG.lookupJ kvs n = none → fieldState kvs (n, .dflt d, nul, t) = d :=
+  ⟨JCodec.decoded_fields closed fs kvs st hn hk h, fun n d nul t hl => JCodec.fieldState_absent_default kvs n d nul t hl⟩
+
 /-- K3 witness -/
 theorem k3 : select [.code 200, .code 404, .dflt] (statusOf .dflt 404) = some (.code 404) := Exchange.k3_witness
 end C01
